@@ -203,8 +203,19 @@ Record adc_inv (idx : N) (V l : cfgmap) (acc : cfgmap * cfgmap) : Prop := {
   ai_hit : forall p, In p (map fst l) \/ cascaded V l p -> map_get p (fst acc) <> None;
   ai_miss : forall p, map_get p (fst acc) = None -> map_get p (snd acc) = map_get p V;
   (* nothing else is there *)
-  ai_dom : forall p, map_get p (fst acc) <> None -> In p (map fst l) \/ cascaded V l p
+  ai_dom : forall p, map_get p (fst acc) <> None -> In p (map fst l) \/ cascaded V l p;
+  (* provenance: an entry is the request's own value or a stored value marked deleted at this index *)
+  ai_prov : forall p u, map_get p (fst acc) = Some u -> In (p, u) l \/ (pv_deleted u = true /\ pv_index u = idx);
+  ai_st_prov : forall p v, map_get p (snd acc) = Some v ->
+                           map_get p V = Some v \/ (pv_deleted v = true /\ pv_index v = idx);
+  ai_upd_ok : keys_ok (fst acc)
 }.
+
+Lemma cascade_upd_keys_ok idx d : forall st upd, keys_ok upd -> keys_ok (fst (cascade idx d st upd)).
+Proof.
+  unfold cascade. cbn [fst]. induction st as [|[k v] st IH]; intros upd KO; cbn; [exact KO|].
+  apply IH. destruct (is_path_below (pv_path v) d); [apply keys_ok_map_set; [exact KO | reflexivity]|exact KO].
+Qed.
 
 Lemma cascaded_weaken V l x p : cascaded V l p -> cascaded V (l ++ [x]) p.
 Proof.
@@ -243,6 +254,8 @@ Proof.
     + intros p [[]|[kd [d [[] _]]]].
     + reflexivity.
     + intros p H. congruence.
+    + intros p u H; discriminate.
+    + intros p v H; left; exact H.
   - rewrite fold_left_app. cbn [fold_left].
     assert (KL' : keys_ok l) by (intros k1 v1 H1; apply KL; apply in_or_app; left; exact H1).
     assert (NL' : nodup l).
@@ -257,7 +270,7 @@ Proof.
     assert (Ek : k = pv_path c) by (apply KL; apply in_or_app; right; left; reflexivity).
     specialize (IH KL' NL' GL').
     set (acc := fold_left (adc_step idx) l ([], V)) in *.
-    destruct IH as [I1 I2 I3 I4 I5 I6 I7 I8 I9].
+    destruct IH as [I1 I2 I3 I4 I5 I6 I7 I8 I9 I10 I11 I12].
     unfold adc_step. cbn [snd fst]. rewrite <- Ek.
     destruct (pv_deleted c) eqn:Dc.
     + (* a delete: cascade, then the delete itself *)
@@ -318,6 +331,18 @@ Proof.
               intros HV. apply I4 in HV. congruence.
            ++ destruct (I9 p H) as [H'|H']; [left; apply in_keys_weaken; exact H' | right; apply cascaded_weaken; exact H'].
         -- destruct (I9 p H) as [H'|H']; [left; apply in_keys_weaken; exact H' | right; apply cascaded_weaken; exact H'].
+      * intros p u H. rewrite map_get_set in H.
+        deq p k; [injection H as <-; left; apply in_or_app; right; left; reflexivity|].
+        rewrite cascade_upd in H by assumption.
+        destruct (map_get p (snd acc)) as [v|] eqn:Gp.
+        -- destruct (is_path_below p k) eqn:Bp.
+           ++ injection H as <-. right. cbn. split; reflexivity.
+           ++ destruct (I10 p u H) as [H'|H']; [left; apply in_or_app; left; exact H' | right; exact H'].
+        -- destruct (I10 p u H) as [H'|H']; [left; apply in_or_app; left; exact H' | right; exact H'].
+      * intros p v H. rewrite cascade_store in H by exact I2.
+        destruct (map_get p (snd acc)) as [v0|] eqn:Gp; [|discriminate].
+        injection H as <-. destruct (is_path_below p k); [right; cbn; split; reflexivity | apply I11; exact Gp].
+      * apply keys_ok_map_set; [apply cascade_upd_keys_ok; exact I12 | exact Ek].
     + (* an update *)
       constructor; cbn [fst snd]; try assumption.
       * apply nodup_map_set. exact I1.
@@ -341,6 +366,10 @@ Proof.
       * intros p H. rewrite map_get_set in H.
         deq p k; [left; rewrite map_app; apply in_or_app; right; left; reflexivity|].
         destruct (I9 p H) as [H'|H']; [left; apply in_keys_weaken; exact H' | right; apply cascaded_weaken; exact H'].
+      * intros p u H. rewrite map_get_set in H.
+        deq p k; [injection H as <-; left; apply in_or_app; right; left; reflexivity|].
+        destruct (I10 p u H) as [H'|H']; [left; apply in_or_app; left; exact H' | right; exact H'].
+      * apply keys_ok_map_set; [exact I12 | exact Ek].
 Qed.
 
 (* ------------------------------------------------------------------ the merge refines sequential gNMI (text level) *)
@@ -361,7 +390,7 @@ Theorem merge_refines idx V ch :
 Proof.
   intros KV NV KC NC G p.
   unfold commit_merge. rewrite adc_unfold.
-  destruct (adc_invariant idx V KV NV ch KC NC G) as [I1 I2 I3 I4 I5 I6 I7 I8 I9].
+  destruct (adc_invariant idx V KV NV ch KC NC G) as [I1 I2 I3 I4 I5 I6 I7 I8 I9 I10 I11 I12].
   set (acc := fold_left (adc_step idx) ch ([], V)) in *.
   rewrite apply_all_live by exact I1.
   unfold spec_live.
